@@ -43,7 +43,7 @@ def coq_cols(rng, lp, w, mask, out, eps, tiny, rtol, maxcols=6):
     return 'check_posterior_cols %s %d %s %s [%s]' % (rtol, K - 1, core.fhex(tiny), core.fhex(eps), '; '.join(cols))
 
 
-def validity(out, K, N, lead, mask=None, eps=0.0, label='posterior', mass=None):
+def validity(out, K, N, lead, mask=None, eps=0.0, label='posterior', mass=None, single=False):
     """the property's range/normalisation predicates; returns failure text or None.
     mass: optional boolean (..., N): columns in which some active class has non-zero weight (the property's
     quantifier: 'whenever every class has non-zero mass'); other columns must only be finite, in range and
@@ -55,7 +55,8 @@ def validity(out, K, N, lead, mask=None, eps=0.0, label='posterior', mass=None):
     if out.min() < 0 or out.max() > 1:
         return '%s outside [0,1]: min %.3g max %.3g' % (label, out.min(), out.max())
     s = out.sum(-2)
-    tol = K * eps + (1e-5 if out.dtype == np.float32 else 1e-9)
+    # single: the array may be float64 typed but computed from single-precision observations
+    tol = K * eps + (1e-5 if (out.dtype == np.float32 or single) else 1e-9)
     if mass is None:
         mass = np.ones(s.shape, bool)
     if np.any(s > 1 + tol):
@@ -292,13 +293,15 @@ def eval_model(rp, rng=None):
         mass = ((wfull > 0) | ~bm).all(-2) & bm.any(-2)
     except Exception:
         mass = None
-    fail = validity(aff, K, N, lead, mask=mask if name == 'cacgmm' else None, eps=0.0, label='predict(%s)' % name, mass=mass)
+    single = any(v.dtype in (np.float32, np.complex64) for v in data.values())
+    fail = validity(aff, K, N, lead, mask=mask if name == 'cacgmm' else None, eps=0.0, label='predict(%s)' % name, mass=mass,
+                    single=single)
     if fail:
         return fail, 'model:invalid:%s' % tag, None, None, False
     # every in-loop E-step
     eps = float(opts.get('affiliation_eps', 0.0))
     for it, rec in enumerate(trace[1:], 1):
-        f2 = validity(rec['affiliation'], K, N, lead, mask=None, eps=eps, label='E-step %d of %s' % (it, name)) \
+        f2 = validity(rec['affiliation'], K, N, lead, mask=None, eps=eps, label='E-step %d of %s' % (it, name), single=single) \
             if mask is None else None
         if f2:
             return f2, 'model:estep:%s' % tag, None, None, False
